@@ -3,7 +3,8 @@
     Models: Store/Priv.v (catalog grants, GRANT/REVOKE/role executors, PrivilegeChecker, session state) and
     Store/PrivPaths.v (the access-path table of the executor). *)
 From Coq Require Import List Bool String.
-From VibeSQL Require Import Store.Priv Store.PrivLaws Store.PrivFixed Store.PrivFixedLaws Store.PrivPaths Store.PrivPathsLaws.
+From VibeSQL Require Import Store.Priv Store.PrivLaws Store.PrivFixed Store.PrivFixedLaws Store.PrivPaths Store.PrivPathsLaws
+  Store.PrivCombinedLaws.
 Import ListNotations.
 Open Scope string_scope.
 
@@ -176,6 +177,29 @@ Theorem C26_revoke_option_cascade_cycle_crashes : forall s privs ot obj grantees
 Proof. exact revoke_option_cascade_cycle_crashes. Qed.
 Print Assumptions C26_revoke_option_cascade_cycle_crashes.
 
+(** the exact frontier for GRANT OPTION FOR ... CASCADE: it returns (within the model's budget of one frame per
+    grant plus one) when no named grantee reaches a delegation cycle for a named privilege, and it overflows the
+    stack - whatever the budget - as soon as one does *)
+Theorem C26_revoke_option_acyclic_never_crashes : forall s privs ot obj grantees,
+  (forall ge p z, In ge grantees -> In p (expand privs ot) ->
+     z = ge \/ reach obj (st_grants s) p ge z -> ~ reach obj (st_grants s) p z z) ->
+  snd (exec_revoke s true privs ot obj grantees CCascade) <> RCrash.
+Proof. exact revoke_option_acyclic_never_crashes. Qed.
+Print Assumptions C26_revoke_option_acyclic_never_crashes.
+
+Theorem C26_cascade_option_cycle_reachable_diverges : forall obj p fuel G x z,
+  z = x \/ reach obj G p x z -> reach obj G p z z -> revoke_cascade fuel obj p true G x = None.
+Proof. exact cascade_option_cycle_reachable_diverges. Qed.
+Print Assumptions C26_cascade_option_cycle_reachable_diverges.
+
+Theorem C26_revoke_option_cascade_reachable_cycle_crashes : forall s privs ot obj grantees ge p z,
+  revoke_object_check s ot obj = None -> all_roles_exist s grantees = true ->
+  In ge grantees -> In p (expand privs ot) ->
+  z = ge \/ reach obj (st_grants s) p ge z -> reach obj (st_grants s) p z z ->
+  step s (ORevoke true privs ot obj grantees CCascade) = (s, RCrash).
+Proof. exact revoke_option_cascade_reachable_cycle_crashes. Qed.
+Print Assumptions C26_revoke_option_cascade_reachable_cycle_crashes.
+
 Theorem C26_revoke_never_crashes_refuted : exists s h, In RCrash (results s h).
 Proof. exact revoke_never_crashes_refuted. Qed.
 Print Assumptions C26_revoke_never_crashes_refuted.
@@ -230,9 +254,9 @@ Theorem C26_paths_deny : forall p, unguarded_known p = false -> silent_known p =
 Proof. exact paths_deny. Qed.
 Print Assumptions C26_paths_deny.
 
-(** the window PARTITION BY clause swallows the refusal raised by a subquery inside it: the statement succeeds,
-    without the subquery's rows (KNOWN: window-partition-error-swallowed).  (DELETE used to do the same with its
-    WHERE clause until the fix "same truth-value rule (and the same errors) as SELECT ... WHERE".) *)
+(** DELETE swallows the refusal raised inside its WHERE clause, the window PARTITION BY clause the one raised by
+    a subquery inside it: the statement succeeds, without the subquery's rows
+    (KNOWN: delete-where-error-swallowed, window-partition-error-swallowed) *)
 Theorem C26_paths_deny_refuted : exists p held t a,
   unguarded_known p = false /\ In (t, a) (required p) /\ held t a = false /\ fst (run held (program p)) = OOk.
 Proof. exact paths_deny_refuted. Qed.
@@ -262,3 +286,40 @@ Theorem C26_paths_fixed_complete : forall p held,
      fst (run held (program_fixed p)) = ODenied /\ filter is_change (snd (run held (program_fixed p))) = []).
 Proof. exact paths_fixed_complete. Qed.
 Print Assumptions C26_paths_fixed_complete.
+
+(** ** the two parts together: the property as stated *)
+
+(** for any history of CREATE ROLE / GRANT / REVOKE / ... and any statement of a listed shape (outside the known
+    classes) executed under a non-administrator role with security enabled: a table's rows are read only if the
+    history left the role SELECT on it - i.e. some GRANT gave it and no later REVOKE matched it, or it was held
+    initially and never revoked - and rows are inserted / updated / deleted only with the matching privilege *)
+Theorem C26_access_follows_history : forall s0 h r p,
+  is_admin r = false -> unguarded_known p = false ->
+  forall e, In e (snd (run (held_in (session_after s0 h r)) (program p))) -> event_justified s0 h r e.
+Proof. exact access_follows_history. Qed.
+Print Assumptions C26_access_follows_history.
+
+(** otherwise it fails and changes nothing (outside the silent and the partial class) *)
+Theorem C26_lacking_fails_and_changes_nothing : forall s0 h r p t a,
+  is_admin r = false -> unguarded_known p = false -> silent_known p = false -> partial_known p = false ->
+  In (t, a) (required p) -> ~ held_by_history s0 h r (name_of t) (priv_of a) ->
+  fst (run (held_in (session_after s0 h r)) (program p)) = ODenied /\
+  filter is_change (snd (run (held_in (session_after s0 h r)) (program p))) = [].
+Proof. exact lacking_fails_and_changes_nothing. Qed.
+Print Assumptions C26_lacking_fails_and_changes_nothing.
+
+(** both, for every listed shape, once the proposed repairs are in *)
+Theorem C26_access_follows_history_fixed : forall s0 h r p,
+  is_admin r = false ->
+  (forall e, In e (snd (run (held_in (session_after s0 h r)) (program_fixed p))) -> event_justified s0 h r e) /\
+  (forall t a, In (t, a) (required p) -> ~ held_by_history s0 h r (name_of t) (priv_of a) ->
+     fst (run (held_in (session_after s0 h r)) (program_fixed p)) = ODenied /\
+     filter is_change (snd (run (held_in (session_after s0 h r)) (program_fixed p))) = []).
+Proof. exact access_follows_history_fixed. Qed.
+Print Assumptions C26_access_follows_history_fixed.
+
+Theorem C26_admin_never_refused : forall s p,
+  st_security s = false \/ is_admin (current_role s) = true ->
+  fst (run (held_in s) (program p)) = OOk.
+Proof. exact admin_never_refused. Qed.
+Print Assumptions C26_admin_never_refused.
